@@ -96,6 +96,29 @@ def corpus(tier, seed):
                  'start = start "+" start | start "*" start | "(" start ")" | "n";']
         out.append({'text': 'grammar g;\n' + '\n'.join(lines) + '\n', 'class': 'operator', 'ops': ['+', '*'], 'levels': [(asg[0], ['*']), (asg[1], ['+'])],
                     'family': 'operator grammar with terminal and rule handles', 'directives': True})
+    # unambiguous LALR(1) grammars with directives: the table has nothing to resolve, so the directives
+    # must change nothing (a table built with weaker lookahead sets would "resolve" its spurious conflicts)
+    base = [
+        ('start = l "=" r | r;\nl = "*" r | "n";\nr = l;\n', ['*', '=']),
+        ('start = "*" u "=" e | e;\ne = e "+" u | u;\nu = "*" u | "n";\n', ['*', '=', '+']),
+        ('start = s;\ns = "*" u "=" e | e;\ne = e "+" e | e "*" e | u;\nu = "*" u | "n" | "(" a ")";\na = a "=" a | e;\n', ['*', '+', '=']),
+        ('start = x "a" | y "b";\nx = "c" x | "c";\ny = "c" y | "c";\n', ['a', 'b', 'c']),
+        ('start = start "+" t | t;\nt = t "*" f | f;\nf = "(" start ")" | "n";\n', ['+', '*']),
+    ]
+    for text, ts in base:
+        k = 0
+        for order in itertools.permutations(ts):
+            for asg in itertools.product(['left', 'right'], repeat=len(ts)):
+                k += 1
+                if not thorough and len(ts) == 3 and k % 4 != 1:
+                    continue
+                lines = ['@%s "%s";' % (a, t) for a, t in zip(asg, order)]
+                cls = 'lalr'
+                out.append(g('\n'.join(lines) + '\n' + text, cls, directives=True, family='unambiguous LALR(1) grammar with directives'))
+    # one line for all terminals
+    for text, ts in base:
+        for a in ('left', 'right'):
+            out.append(g('@%s %s;\n' % (a, ' '.join('"%s"' % t for t in ts)) + text, 'lalr', directives=True, family='unambiguous LALR(1) grammar with directives'))
     # partially declared: one operator left without directive -> unresolved conflict expected
     out.append({'text': 'grammar g;\n' + op_grammar(['+', '*'], [('left', ['*'])]), 'class': 'ambiguous', 'ops': None, 'family': 'operator grammar with a missing directive', 'directives': True})
     rnd = random.Random(seed)
